@@ -21,11 +21,11 @@ fn check_string(s: &str, problems: &mut Vec<Value>, counts: &mut [u64; 3]) {
                 counts[2] += 1;
             }
             if let Some(m) = c08_check(p, &out) {
-                if problems.len() < 5000 {
+                if problems.len() < 500_000 {
                     problems.push(json!({"p": p, "in": string_to_cps(s), "out": o, "what": m}));
                 }
             }
-        } else if r.get("panic").is_some() && problems.len() < 5000 {
+        } else if r.get("panic").is_some() && problems.len() < 500_000 {
             problems.push(json!({"p": p, "in": string_to_cps(s), "what": r}));
         }
     }
@@ -119,7 +119,7 @@ pub fn main(args: &[String]) {
             }
         }
     }
-    for p in problems.iter().take(3000) {
+    for p in problems.iter() {
         println!("{}", json!({ "problem": p }));
     }
     println!(
